@@ -13,12 +13,12 @@ func init() {
 	register(&Profile{
 		Name:     "C03",
 		Property: "C03",
-		Gen:      genC03,
+		Gen:      func(g *Gen) *Plan { return swarm(g, genC03(g), 0.2, 0) },
 		Oracles:  []func(o *Outcome) []Violation{oracleC03, livenessOracle("C03"), respOracle("C03", "wrong-body", "wrong-key", "unattributable-response")},
 		NonTrivial: func(o *Outcome) bool {
 			return o.Hist.Probes["must-not-store-reply-followed-by-request"] > 0
 		},
-		Rule:         "seeded plans: per key one fetch (any method) with 0-2 concurrent identical requests, a drawn delay, then 1-3 identical requests; the origin's header set comes from a grammar over Cache-Control directives (any order, casing, spacing, 1-3 header lines, unknown tokens), max-age/s-maxage in {0,1,small,overflow}, Age in {absent, valid, > max-age, negative, non-numeric, huge}, Set-Cookie, any status; a quarter of the plans persist the cache through a slow store; in 15% of plans the location adds response headers of its own (a permissive Cache-Control included), which must not lift what the origin forbids. The header language is an input space: sampled by the seeded generator and checked through time and state (store -> reuse), not enumerated. non-trivial = a reply the model says must not be stored was followed by another request of its key; distinct = distinct history hash",
+		Rule:         "seeded plans: per key one fetch (any method) with 0-2 concurrent identical requests, a drawn delay, then 1-3 identical requests; the origin's header set comes from a grammar over Cache-Control directives (any order, casing, spacing, 1-3 header lines, unknown tokens), max-age/s-maxage in {0,1,small,overflow}, Age in {absent, valid, > max-age, negative, non-numeric, huge}, Set-Cookie, any status; a quarter of the plans persist the cache through a slow store; in 15% of plans the location adds response headers of its own (a permissive Cache-Control included), which must not lift what the origin forbids. The header language is an input space: sampled by the seeded generator and checked through time and state (store -> reuse), not enumerated. in a fifth of the plans a tenth of the clients disconnect at a scheduler-chosen step (fault client-disconnect). non-trivial = a reply the model says must not be stored was followed by another request of its key; distinct = distinct history hash",
 		ExpectProbes: []string{"must-not-store-reply-followed-by-request", "must-not:set-cookie", "must-not:no-cache", "must-not:no-store", "must-not:private", "must-not:no cache-control", "must-not:lifetime<=0", "must-not:method", "must-not:huge Age", "location-adds-cache-control", "label-hit-checked", "label-other-checked", "uppercase-directive"},
 	})
 }
